@@ -40,6 +40,9 @@ pub fn batches(variant: usize) -> Vec<Batch> {
             let n = if variant == 6 { 6u64 } else { 9 };
             vec![(0..n).map(|s| (s, vec![a.shift(s as f32, 0.0)])).collect(), (0..n).map(|s| (s, vec![p1().shift(s as f32, 0.0).feat(&fa1(), 0.8)])).collect()]
         }
+        // the batches of variant 1, used with max idle 1 and the store-wide collection of expired tracks at EVERY
+        // submission: scene 1's track is one epoch old whenever the next batch is prepared
+        8 => batches(1),
         // three scenes
         _ => vec![vec![(0, vec![a.clone()]), (1, vec![a.clone()]), (2, vec![b.clone()])], vec![(0, vec![p1()]), (2, vec![b.shift(1.0, 1.0)]), (1, vec![p1().shift(0.5, 0.0)])]],
     }
@@ -306,7 +309,7 @@ pub fn replay_batch(file: &serde_json::Value, prop: &str, judge: &dyn Fn(&RunOut
 
 pub fn run_check(tier: Tier) -> Report {
     let rep = Report::new("C06", tier);
-    rep.set_rule("BatchSort and BatchVisualSort x (distance shards, voting shards) in {(1,1),(1,2),(2,2)} (thorough: (1,3)) x batch sequences (2-3 batches over 2-3 scenes with 1-2 detections per scene, a scene absent from one batch; batches of 6 / 9 scenes for 1 / 2 voting threads; for BatchVisualSort also own-area thresholds with scenes of different own-area shares in one batch) x consumer discipline {same thread retrieves before the next submission; a second thread retrieves while the caller submits at once}, then drop; plus a fine tier (every synchronisation operation a decision point, 2 voting threads; two batches of two scenes retrieved before the next submission, deviation bound iterated to 2 quick / 4 thorough; three pipelined batches retrieved by consumer threads, bound 1 quick / 3 thorough): every interleaving of the predict loop, store workers, voting threads and consumer within the bound (window = whole run; bound = preemptions for the 1x1 / retrieve-then-submit configuration, otherwise departures from the deterministic default schedule i.e. delay bounding; bounds iterated 0,1,2,.. and the largest completed one reported per scenario); oracle: one result per submitted scene, one record per detection in order, per scene equal to the simple tracker up to an id bijection, no deadlock / step-cap. A third discipline that violates the proviso (submit a two-scene batch, then the next, before retrieving) must deadlock: built-in detection demo. states = executions.");
+    rep.set_rule("BatchSort and BatchVisualSort x (distance shards, voting shards) in {(1,1),(1,2),(2,2)} (thorough: (1,3)) x batch sequences (2-3 batches over 2-3 scenes with 1-2 detections per scene, a scene absent from one batch, also with max idle 1 and expired tracks collected at every submission; batches of 6 / 9 scenes for 1 / 2 voting threads; for BatchVisualSort also own-area thresholds with scenes of different own-area shares in one batch) x consumer discipline {same thread retrieves before the next submission; a second thread retrieves while the caller submits at once}, then drop; plus a fine tier (every synchronisation operation a decision point, 2 voting threads; two batches of two scenes retrieved before the next submission, deviation bound iterated to 2 quick / 4 thorough; three pipelined batches retrieved by consumer threads, bound 1 quick / 3 thorough): every interleaving of the predict loop, store workers, voting threads and consumer within the bound (window = whole run; bound = preemptions for the 1x1 / retrieve-then-submit configuration, otherwise departures from the deterministic default schedule i.e. delay bounding; bounds iterated 0,1,2,.. and the largest completed one reported per scenario); oracle: one result per submitted scene, one record per detection in order, per scene equal to the simple tracker up to an id bijection, no deadlock / step-cap. A third discipline that violates the proviso (submit a two-scene batch, then the next, before retrieving) must deadlock: built-in detection demo. states = executions.");
     rep.assume("macro-step granularity (named points: worker dequeues a command, distances queued, scene dispatched, vote begin / before each store write / before the result is sent); preemptions inside lock-protected sections are not explored");
     let mut scen = BTreeMap::new();
     let mut total = 0u64;
@@ -335,6 +338,10 @@ pub fn run_check(tier: Tier) -> Report {
     for kind in [Kind::BatchSort, Kind::BatchVisualSort] {
         scenarios.push((kind, 1, 1, 6, 0, Pos::Iou(0.3)));
         scenarios.push((kind, 1, 2, 7, 0, Pos::Iou(0.3)));
+    }
+    // expired tracks collected at every submission while the previous batch may still be voting
+    for kind in [Kind::BatchSort, Kind::BatchVisualSort] {
+        scenarios.push((kind, 1, 2, 8, 1, Pos::Iou(0.3)));
     }
     // own-area thresholds on, scenes with different own-area shares in one batch (BatchVisualSort only)
     scenarios.push((Kind::BatchVisualSort, 1, 1, 5, 0, Pos::Iou(0.3)));
@@ -394,6 +401,10 @@ pub fn run_check(tier: Tier) -> Report {
         if variant == 5 {
             cfg.vis.own_use = 0.5;
             cfg.vis.own_collect = 0.3;
+        }
+        if variant == 8 {
+            cfg.max_idle = 1;
+            cfg.auto_waste = Some(0);
         }
         let bs = batches(variant);
         let reference = simple_reference(&cfg, &bs);
